@@ -1205,6 +1205,16 @@ where
                                 .stats()
                                 .transaction(self.server_parameters.get_application_name());
 """),
+    dict(id="c17-reload-awaited-in-the-loop", prop="C17", file="src/main.rs", expect="C17-R4",
+         what="the SIGHUP arm awaits the reload inline again (D74 again)",
+         old="""                    let client_server_map = client_server_map.clone();
+                    tokio::task::spawn(async move {
+                        _ = reload_config(client_server_map).await;
+
+                        get_config().show();
+                    });""", new="""                    _ = reload_config(client_server_map.clone()).await;
+
+                    get_config().show();"""),
     # ------------------------------------------------------------------ C17
     dict(id="c17-shutdown-checked-in-transaction", prop="C17", file="src/client.rs", expect="C17-R1",
          what="the transaction loop also reacts to the shutdown broadcast",
